@@ -333,3 +333,82 @@ def encode(blocks, version=2, compression="none", prefix=b"", block_size=8192, m
     tr += bytes(TRAILER - 4 - len(tr)) + struct.pack("<I", MAGIC_V2 if version == 2 else MAGIC_V1)
     out += tr
     return bytes(out)
+
+
+# ---------------------------------------------------------------- a block above 4 GiB in a sparse file
+def _crc_zero_run(c, n):
+    """register state after n zero bytes (the update is linear over GF(2): n-th power of the one-zero-byte operator)"""
+    m = [(_T[(1 << i) & 0xFF] ^ ((1 << i) >> 8)) for i in range(32)]
+
+    def app(mm, v):
+        r, i = 0, 0
+        while v:
+            if v & 1:
+                r ^= mm[i]
+            v >>= 1
+            i += 1
+        return r
+    while n:
+        if n & 1:
+            c = app(m, c)
+        m = [app(m, x) for x in m]
+        n >>= 1
+    return c
+
+
+def crc32c_segments(segs):
+    """segs: list of bytes objects and integers (an integer n stands for n zero bytes)"""
+    c = 0xFFFFFFFF
+    for s in segs:
+        if isinstance(s, int):
+            c = _crc_zero_run(c, s)
+        else:
+            for b in s:
+                c = _T[(c ^ b) & 0xFF] ^ (c >> 8)
+    return c ^ 0xFFFFFFFF
+
+
+def fnv64_zeros(n):
+    return (1469598103934665603 * pow(1099511628211, n, 1 << 64)) & 0xFFFFFFFFFFFFFFFF
+
+
+def write_sparse_bigblock(path, big=1610612736, prefix=13):
+    """A well-formed v2 file with ONE uncompressed data block whose entry area exceeds 4 GiB (three values of `big` zero bytes in
+    holes of a sparse file, then small entries), a restart point at every entry - so the restart array is the 64-bit form and
+    three of its offsets are >= 2^32 - behind `prefix` foreign bytes. Returns the list of (key, value) with a value given as bytes
+    or as an integer n (n zero bytes)."""
+    ents = [(b"a", big), (b"b", big), (b"b2", big), (b"c", b"C"), (b"d", b"D"), (b"dd", b"E" * 5)]
+    segs, restarts, pos = [], [], 0
+    for k, v in ents:
+        vlen = v if isinstance(v, int) else len(v)
+        hdr = varint_enc(0) + varint_enc(len(k)) + varint_enc(vlen) + k
+        restarts.append(pos)
+        segs.append(hdr)
+        segs.append(v)
+        pos += len(hdr) + vlen
+    assert pos > 0xFFFFFFFF
+    tail = b"".join(struct.pack("<Q", r) for r in restarts) + struct.pack("<I", len(restarts))
+    segs.append(tail)
+    blen = pos + len(tail)
+    crc = crc32c_segments(segs)
+    with open(path, "wb") as f:
+        f.write(bytes([0x5A]) * prefix)
+        boff = f.tell()
+        f.write(varint_enc(blen) + struct.pack("<I", crc))
+        for s in segs:
+            if isinstance(s, int):
+                f.seek(s, 1)
+            else:
+                f.write(s)
+        ioff = f.tell()
+        ic = encode_block_contents([(b"dd", varint_enc(boff))], {0})
+        f.write(varint_enc(len(ic)) + struct.pack("<I", crc32c(ic)) + ic)
+        end = f.tell()
+        nent = len(ents)
+        bk = sum(len(k) for k, _ in ents)
+        bv = sum(v if isinstance(v, int) else len(v) for _, v in ents)
+        vals = [ioff, 8192, 0, nent, 1, ioff - boff, end - ioff, bk, bv]
+        tr = struct.pack("<9Q", *vals)
+        tr += bytes(TRAILER - 4 - len(tr)) + struct.pack("<I", MAGIC_V2)
+        f.write(tr)
+    return ents, restarts
